@@ -202,6 +202,9 @@ func FindRetainLoops(p *Prog, pk *packages.Package, fd *ast.FuncDecl, fnName str
 			if len(ex.bad) > 0 {
 				rl.Shape = "undecided: " + strings.Join(ex.bad, "; ")
 			}
+			if breaksLoop(rs.Body) {
+				rl.Shape = "undecided: the rebuild loop can be left with break, which drops every entry behind that point"
+			}
 			res = append(res, rl)
 			return true
 		})
@@ -537,7 +540,9 @@ func applyRetain(p *Prog, r *Report, rule string, short, recv, method string, sp
 		if spec.Count > 1 {
 			k = fmt.Sprintf("%s#%d", key, n)
 		}
-		if strings.HasPrefix(rl.Shape, "undecided") {
+		if strings.Contains(rl.Shape, "left with break") {
+			r.Fail(rule, k, p.Pos(rl.Pos), strings.TrimPrefix(rl.Shape, "undecided: "))
+		} else if strings.HasPrefix(rl.Shape, "undecided") {
 			r.Undecided(rule, k, p.Pos(rl.Pos), detail)
 		} else {
 			r.Check(rule, k, ok, p.Pos(rl.Pos), detail)
@@ -550,4 +555,46 @@ func applyRetain(p *Prog, r *Report, rule string, short, recv, method string, sp
 	if n < want {
 		r.Undecided(rule, key+"|loops", p.Pos(pos), fmt.Sprintf("%d rebuild loops for %s found, %d expected", n, spec.Field, want))
 	}
+}
+
+// breaksLoop: the body contains a break that leaves the loop it belongs to.
+func breaksLoop(body *ast.BlockStmt) bool {
+	found := false
+	var walk func(n ast.Node, inner bool)
+	walk = func(n ast.Node, inner bool) {
+		ast.Inspect(n, func(m ast.Node) bool {
+			if m == nil || found {
+				return false
+			}
+			switch x := m.(type) {
+			case *ast.FuncLit:
+				return false
+			case *ast.ForStmt:
+				walk(x.Body, true)
+				return false
+			case *ast.RangeStmt:
+				walk(x.Body, true)
+				return false
+			case *ast.SwitchStmt:
+				walk(x.Body, true)
+				return false
+			case *ast.TypeSwitchStmt:
+				walk(x.Body, true)
+				return false
+			case *ast.SelectStmt:
+				walk(x.Body, true)
+				return false
+			case *ast.BranchStmt:
+				if x.Tok == token.BREAK && (!inner || x.Label != nil) {
+					found = true
+				}
+				if x.Tok == token.GOTO {
+					found = true
+				}
+			}
+			return true
+		})
+	}
+	walk(body, false)
+	return found
 }
